@@ -21,13 +21,17 @@ MODULES = ['GProofs.Geometry', 'GProofs.C12', 'GProofs.C12Gen', 'GProofs.C12Win'
 COLS = ['atom index', 'start site', 'destination site', 'start time', 'stop time']
 
 
-def make_df(rows):
-    return pd.DataFrame(data=np.array(rows, dtype=int).reshape(-1, 5), columns=COLS)
+def make_df(rows, presorted=False):
+    df = pd.DataFrame(data=np.array(rows, dtype=int).reshape(-1, 5), columns=COLS)
+    if presorted:
+        # a table the caller already put in chronological order: its row labels are no longer 0..n-1
+        df = df.sort_values(['stop time', 'start time'])
+    return df
 
 
-def impl_collective(rows, lat, site_coords, ms, md):
+def impl_collective(rows, lat, site_coords, ms, md, presorted=False):
     sites = gem.make_sites(lat, site_coords)
-    c = Collective(jumps=SimpleNamespace(data=make_df(rows)), sites=sites, lattice=Lattice(np.array(lat, float)),
+    c = Collective(jumps=SimpleNamespace(data=make_df(rows, presorted)), sites=sites, lattice=Lattice(np.array(lat, float)),
                    max_steps=ms, max_dist=md)
     pairs = [(tuple(int(a[k]) for k in COLS), tuple(int(b[k]) for k in COLS)) for a, b in c.collective]
     coll_jumps = [((int(a[0]), int(a[1])), (int(b[0]), int(b[1]))) for a, b in c.coll_jumps]
@@ -124,7 +128,14 @@ def gen_case(rng, big=False):
                 seen.add(tuple(r))
                 uniq.append(r)
         rows = uniq
-    return {'lattice_name': name, 'lattice': lat.tolist(), 'sites': site_coords.tolist(), 'rows': rows, 'ms': ms, 'md': md}
+    elif rng.random() < 0.15:
+        # a cut-off a few 1e-8 (relative) above or below one of the site separations: decided correctly in double precision only
+        dd = Lattice(lat).get_all_distances(site_coords, site_coords)
+        dd = dd[dd > 0.3]
+        if len(dd):
+            md = float(rng.choice(dd)) * (1 + float(rng.choice([3e-8, -3e-8, 8e-8])))
+    return {'lattice_name': name, 'lattice': lat.tolist(), 'sites': site_coords.tolist(), 'rows': rows, 'ms': ms, 'md': md,
+            'presorted_table': bool(rng.random() < 0.3)}
 
 
 def check_case(out: Outcome, case, tag):
@@ -136,9 +147,9 @@ def check_case(out: Outcome, case, tag):
                       ('d', f'sitedist {gem.enc_m3(lat)} {gem.enc_v3s(sc)}')])
     dflat = [core.dec_rat(t) for t in res['d'].split()[1:]]
     dsq = [dflat[k * ns:(k + 1) * ns] for k in range(ns)]
-    # margin: cut-off decisions must not sit within 1e-6 of a site distance
+    # margin: cut-off decisions must not sit within 1e-9 (relative) of a site distance
     dmin = min(abs(math.sqrt(float(v)) - md) for r in dsq for v in r)
-    if dmin < 1e-6:
+    if dmin < 1e-9 * max(md, 1.0):
         out.count('skipped-margin')
         return
     # trusted-base validation: pymatgen's minimum-image distance equals the certified one
@@ -147,7 +158,7 @@ def check_case(out: Outcome, case, tag):
         out.fail('correspondence', 'pymatgen-min-image', case, expected=[[str(v) for v in r] for r in dsq], observed=pm.tolist(),
                  note='Lattice.get_all_distances differs from the certified minimum image')
     try:
-        pairs, coll_jumps, nsolo, ncoll = impl_collective(rows, lat, sc, ms, md)
+        pairs, coll_jumps, nsolo, ncoll = impl_collective(rows, lat, sc, ms, md, presorted=bool(case.get('presorted_table')))
     except Exception as e:  # noqa: BLE001
         out.fail('property', 'collective-build', case, observed=type(e).__name__ + ': ' + str(e)[:200])
         return
@@ -291,8 +302,8 @@ SPEC = PropertySpec(
     replay=replay,
     gen=translate.gen_for('PairGuard', 'FormulasC12'),
     rule=('random jump tables of 2-14 distinct rows (4 atoms, 3-7 sites on a k/8 grid of a pool lattice incl. triclinic ones, start '
-          'times 0..40, 40% long transits overlapping many other jumps), window 0-5, cut-off from {0.5,1,2,3,4.5,6} kept >= 1e-6 from '
-          'every site distance; through Collective(...) directly and 30 (200) through Jumps.collective() — half of them with a site structure carrying a 3-6 % '
+          'times 0..40, 40% long transits overlapping many other jumps), window 0-5, cut-off from {0.5,1,2,3,4.5,6} or within 3e-8..8e-8 (relative) of a site distance, kept >= 1e-9 (relative) from '
+          'every site distance; 30% of the tables handed over already sorted by stop time (row labels not 0..n-1); through Collective(...) directly and 30 (200) through Jumps.collective() — half of them with a site structure carrying a 3-6 % '
           'different reference cell and a cut-off 2 % off a site separation of the simulation cell — (window formula recomputed from '
           'the implementation\'s own attempt frequency). On the implementation: reported unordered pairs = pairs satisfying the three '
           'conditions (exact minimum-image distances from the certified model), each once, solo + collective = total; exact '
